@@ -26,13 +26,45 @@ def by_name(name):
     if name.startswith("RICH:"):
         _, base, k = name.split(":")
         return I.generate_richardson_integrator(by_name(base), int(k))
+    if name.startswith("SCRIPT:"):
+        return scripted(name)
     for M in I.explicit_methods() + I.implicit_methods():
         if M.__name__ == name:
             return M
     raise KeyError(name)
 
 
+SCRIPT_LAST = dict(calls=0)
+
+
+def scripted(name):
+    """'SCRIPT:<base>:<mode>:<k>=<frac>[,<k>=<frac>...]' - the real integrator <base> behind a scripted environment answer: on its k-th call (counted per
+    constructed class, i.e. per fresh system) it takes only <frac> of the step it was asked for, exactly as an adaptive method does after rejecting a trial
+    step.  mode 'keep': the shortened step is also what it proposes next; mode 'back': it proposes the originally requested step again.  The answers of all
+    other calls are untouched.  (k = '' : no deviation, used to count the calls of the fault-free run.)"""
+    _, base, mode, plan_s = name.split(":")
+    plan = {int(kv.split("=")[0]): float(kv.split("=")[1]) for kv in plan_s.split(",") if kv}
+    B = by_name(base)
+    state = dict(n=0)
+    SCRIPT_LAST["state"] = state
+
+    class Scripted(B):
+        def __call__(self, rhs, initial_time, initial_state, constants, timestep):
+            k = state["n"]
+            state["n"] += 1
+            if k in plan:
+                asked = timestep
+                new_dt, step = super().__call__(rhs, initial_time, initial_state, constants, timestep * plan[k])
+                return (asked if mode == "back" else new_dt), step
+            return super().__call__(rhs, initial_time, initial_state, constants, timestep)
+    Scripted.__name__ = B.__name__
+    Scripted.__qualname__ = B.__qualname__
+    return Scripted
+
+
 def family(name):
+    if name.startswith("SCRIPT:"):
+        name = name.split(":")[1]
     for fam, names in (("fixed-explicit", FIXED_EXPLICIT), ("splitting", SPLITTING), ("adaptive-explicit", ADAPTIVE_EXPLICIT),
                        ("implicit-fixed", IMPLICIT_FIXED), ("implicit-adaptive", IMPLICIT_ADAPTIVE)):
         if name in names:
